@@ -64,6 +64,9 @@ func verifC03Reconstruct() {
 			}
 		}
 	}
+	if useMarker && len(refTypes) == 0 {
+		useMarker = false // (an empty reference list is malformed: C04 R8a)
+	}
 	markerPos := -1
 	if useMarker {
 		markerPos = vInt(0, len(base))
